@@ -255,7 +255,12 @@ fn e_backend(code: u32, flags: u32, size_delta: i32, variant: usize) {
     let v: u64 = kani::any();
     let av: u64 = kani::any();
     let ap: u64 = kani::any();
-    let body: [u8; 72] = kani::any();
+    let mut body: [u8; 72] = kani::any();
+    if (code == fe::GET_CONFIG || code == fe::SET_CONFIG) && variant & 0x200 != 0 {
+        // variant bit 0x200: the body's size word is the concrete payload length (keeps every slice taken
+        // with it of constant length for CBMC, whatever the code does with it)
+        spec::wr32(&mut body, 4, (variant & 15) as u32);
+    }
     let nfds: usize = if variant == 99 { 0 } else { kani::any() };
     kani::assume(nfds <= 2);
     // `variant`: payload length for GET/SET_CONFIG, number of regions the size field allows for SET_MEM_TABLE
@@ -541,6 +546,70 @@ macro_rules! e_be {
 }
 
 
+
+// =============================================================== truncation through the request server (C08)
+/// The stream ends `cut` bytes into a well-formed request (header flags 0x1, `size`-byte body): the real
+/// handle_request must report an error - `Disconnected` only when nothing of the message was received -
+/// without reaching the handler, writing anything or blocking.
+fn e_backend_trunc(code: u32, size: usize, cut: usize) {
+    let v: u64 = kani::any();
+    let av: u64 = kani::any();
+    let ap: u64 = kani::any();
+    let b0: u64 = kani::any();
+    let b1: u64 = kani::any();
+    let mut h = mk_handler(v, av, ap);
+    // SAFETY: single-threaded harness, ghost state is plain data
+    unsafe {
+        g::put_hdr(0, code, spec::F_VERSION_1, size as u32);
+        g::put64(12, b0);
+        g::put64(20, b1);
+        g::G.rx_len = cut;
+        g::G.rx_closed = true; // the peer closes after `cut` bytes
+        g::G.rx_nfds = 0;
+        g::G.rx_fd_call = 1;
+    }
+    Rec::script();
+    let res = h.handle_request();
+    kani::cover!(res.is_err());
+    match &res {
+        Ok(_) => assert!(false, "C08: a request cut short by the end of the stream must be an error"),
+        Err(Error::Disconnected) => assert!(cut == 0, "C08: 'disconnected' only at a message boundary"),
+        Err(_) => assert!(cut > 0, "C08: end of stream at a message boundary is a clean disconnect"),
+    }
+    assert!(rd().calls == 0, "C08: a partial request must not be dispatched");
+    // SAFETY: reading ghost state
+    unsafe {
+        assert!(!g::G.blocked, "C08: must not block on a closed stream");
+        assert!(g::G.tx_len == 0, "C08: nothing is written for a partial request");
+    }
+    std::mem::forget(res);
+}
+macro_rules! e_bt {
+    ($name:ident, $code:expr, $size:expr, $cut:expr) => {
+        #[kani::proof]
+        #[kani::unwind(5)]
+        #[kani::stub(vmm_sys_util::sock_ctrl_msg::raw_recvmsg, g::ghost_recvmsg)]
+        #[kani::stub(vmm_sys_util::sock_ctrl_msg::raw_sendmsg, g::ghost_sendmsg)]
+        #[kani::stub(libc::close, g::ghost_close)]
+        #[kani::stub(<std::os::fd::OwnedFd as std::ops::Drop>::drop, g::ghost_ownedfd_drop)]
+        #[kani::stub(std::alloc::handle_alloc_error, g::ghost_alloc_error)]
+        fn $name() {
+            e_backend_trunc($code, $size, $cut)
+        }
+    };
+}
+// @harness props=C08 tier=quick reach=off timeout=400 bound="handle_request: SET_VRING_NUM (8-byte body), stream ends at offset 0 (message boundary); body and negotiation words symbolic" stubs="vmm-sys-util raw_recvmsg/raw_sendmsg (ghost stream socket), libc::close + OwnedFd::drop, handle_alloc_error"
+e_bt!(c08_e_request_cut_0, 8, 8, 0);
+// @harness props=C08 tier=quick reach=off timeout=400 bound="handle_request: SET_VRING_NUM (8-byte body), stream ends at offset 7 (inside the header); body and negotiation words symbolic" stubs="vmm-sys-util raw_recvmsg/raw_sendmsg (ghost stream socket), libc::close + OwnedFd::drop, handle_alloc_error"
+e_bt!(c08_e_request_cut_7, 8, 8, 7);
+// @harness props=C08 tier=quick reach=off timeout=400 bound="handle_request: SET_VRING_NUM (8-byte body), stream ends at offset 12 (right after the header); body and negotiation words symbolic" stubs="vmm-sys-util raw_recvmsg/raw_sendmsg (ghost stream socket), libc::close + OwnedFd::drop, handle_alloc_error"
+e_bt!(c08_e_request_cut_12, 8, 8, 12);
+// @harness props=C08 tier=quick reach=off timeout=400 bound="handle_request: SET_VRING_NUM (8-byte body), stream ends at offset 19 (one byte short); body and negotiation words symbolic" stubs="vmm-sys-util raw_recvmsg/raw_sendmsg (ghost stream socket), libc::close + OwnedFd::drop, handle_alloc_error"
+e_bt!(c08_e_request_cut_19, 8, 8, 19);
+// @harness props=C08 tier=thorough reach=off timeout=400 bound="handle_request: SET_VRING_ADDR (40-byte body), stream ends at offset 12; body and negotiation words symbolic" stubs="vmm-sys-util raw_recvmsg/raw_sendmsg (ghost stream socket), libc::close + OwnedFd::drop, handle_alloc_error"
+e_bt!(c08_e_vring_addr_cut_12, 9, 40, 12);
+// @harness props=C08 tier=thorough reach=off timeout=400 bound="handle_request: SET_FEATURES (8-byte body), stream ends at offset 15; body and negotiation words symbolic" stubs="vmm-sys-util raw_recvmsg/raw_sendmsg (ghost stream socket), libc::close + OwnedFd::drop, handle_alloc_error"
+e_bt!(c08_e_set_features_cut_15, 2, 8, 15);
 
 // =============================================================== unit level (C05, C09)
 // Private helpers of the request server called directly with fully symbolic header words.
@@ -839,6 +908,10 @@ e_be!(e_be_get_config_ret3_plain, 24, 0x1, 0, 52);
 e_be!(e_be_get_config_ret5_nr, 24, 0x9, 0, 84);
 // @harness props=C01,C02,C03,C04,C05,C07 tier=thorough reach=off timeout=400 bound="request 24 (GET_CONFIG), header flags 0x1 (version 1), declared size = body size; body bytes, 0..=2 attached descriptors, three 64-bit negotiation words and handler outcome symbolic; one request" stubs="vmm-sys-util raw_recvmsg/raw_sendmsg (ghost stream socket), libc::close + OwnedFd::drop (ghost descriptor table), handle_alloc_error (assume false)"
 e_be!(e_be_get_config_ret5_plain, 24, 0x1, 0, 84);
+// @harness props=C01,C02,C03,C04,C05,C07 tier=quick reach=off timeout=400 bound="request 24 (GET_CONFIG), header flags 0x9 (version 1, NEED_REPLY), declared size = body size, body size word concrete (= payload length); body bytes, 0..=2 attached descriptors, three 64-bit negotiation words and handler outcome symbolic; one request" stubs="vmm-sys-util raw_recvmsg/raw_sendmsg (ghost stream socket), libc::close + OwnedFd::drop (ghost descriptor table), handle_alloc_error (assume false)"
+e_be!(e_be_get_config_ret5c_nr, 24, 0x9, 0, 596);
+// @harness props=C01,C02,C03,C04,C05,C07 tier=thorough reach=off timeout=400 bound="request 24 (GET_CONFIG), header flags 0x1 (version 1), declared size = body size, body size word concrete (= payload length); body bytes, 0..=2 attached descriptors, three 64-bit negotiation words and handler outcome symbolic; one request" stubs="vmm-sys-util raw_recvmsg/raw_sendmsg (ghost stream socket), libc::close + OwnedFd::drop (ghost descriptor table), handle_alloc_error (assume false)"
+e_be!(e_be_get_config_ret5c_plain, 24, 0x1, 0, 596);
 // @harness props=C01,C02,C03,C04,C05,C07 tier=quick reach=off timeout=400 bound="request 24 (GET_CONFIG), header flags 0x9 (version 1, NEED_REPLY), declared size = body size; body bytes, 0..=2 attached descriptors, three 64-bit negotiation words and handler outcome symbolic; one request" stubs="vmm-sys-util raw_recvmsg/raw_sendmsg (ghost stream socket), libc::close + OwnedFd::drop (ghost descriptor table), handle_alloc_error (assume false)"
 e_be!(e_be_get_config_fail_nr, 24, 0x9, 0, 324);
 // @harness props=C01,C02,C03,C04,C05,C07 tier=thorough reach=off timeout=400 bound="request 24 (GET_CONFIG), header flags 0x1 (version 1), declared size = body size; body bytes, 0..=2 attached descriptors, three 64-bit negotiation words and handler outcome symbolic; one request" stubs="vmm-sys-util raw_recvmsg/raw_sendmsg (ghost stream socket), libc::close + OwnedFd::drop (ghost descriptor table), handle_alloc_error (assume false)"
